@@ -386,4 +386,36 @@ Inv_C09_FirstArgmax ==
         /\ \A a \in RangeS(arms) : RLeq(expv[a], expv[last.res.arm])
         /\ \A i \in DOMAIN arms :
               (arms[i] = last.res.arm) => \A j \in 1..(i - 1) : RLt(expv[arms[j]], expv[arms[i]])
+
+---------------------------------------------------------------------------
+(* C20: the documented statistics are invariant to arm names and to the order of the training rows, and react to
+   reward shifts / scalings in the documented way.  Stated on the Def layer for histories without arm changes and
+   warm starts (born = 0, base empty), checked by TLC in every such reachable state. *)
+PlainHistory == (\A a \in RangeS(arms) : born[a] = 0 /\ base[a] = <<>>)
+StatsOfRows(h, a) == LET own == SelectSeq(h, LAMBDA row : row.a = a)
+                     IN  <<ISumSeq([i \in DOMAIN own |-> own[i].c]), Len(own)>>
+Perms(n) == {f \in [1..n -> 1..n] : \A i, j \in 1..n : i # j => f[i] # f[j]}
+Inv_C20_RowOrder ==
+    (fitted /\ PlainHistory /\ Len(hist) <= 4) =>
+        \A f \in Perms(Len(hist)) : \A a \in RangeS(arms) :
+            StatsOfRows([i \in DOMAIN hist |-> hist[f[i]]], a) = StatsOfRows(hist, a)
+Inv_C20_Rename ==
+    (fitted /\ PlainHistory) =>
+        \A f \in {g \in [Labels -> Labels] : \A x, y \in Labels : x # y => g[x] # g[y]} :
+            \A a \in RangeS(arms) :
+                StatsOfRows([i \in DOMAIN hist |-> [a |-> f[hist[i].a], r |-> hist[i].r, c |-> hist[i].c]], f[a])
+                    = StatsOfRows(hist, a)
+(* shifting every reward by k shifts the mean of an observed arm by k and leaves differences of means (hence
+   soft-max shares and the UCB1 bonus, which does not involve rewards) unchanged; scaling scales the mean *)
+Inv_C20_ShiftScale ==
+    (fitted /\ PlainHistory) =>
+        \A a \in RangeS(arms) : \A k \in {1, 2} :
+            LET st == StatsOfRows(hist, a) IN
+            (st[2] > 0) =>
+                /\ RFrac(st[1] + k * st[2], st[2]) = RAdd(RFrac(st[1], st[2]), R(k))
+                /\ RFrac(k * st[1], st[2]) = RMul(R(k), RFrac(st[1], st[2]))
+                /\ \A b \in RangeS(arms) :
+                      LET sb == StatsOfRows(hist, b) IN
+                      (sb[2] > 0) => RSub(RFrac(st[1] + k * st[2], st[2]), RFrac(sb[1] + k * sb[2], sb[2]))
+                                        = RSub(RFrac(st[1], st[2]), RFrac(sb[1], sb[2]))
 =============================================================================
